@@ -19,6 +19,7 @@ EXPECT = [
     ('c99966a', 'C17', 'L4 / error_ip is given an address only by'), ('bd46585', 'C17', 'L6 / return_impl updates error_ip'),
     ('5316737', 'C08', 'X13 / return through nested try statements'), ('ba8fac9', 'C15', 'N4 / Vm.range_cache survives reset()'),
     ('fef9c2f', 'C07', 'K4 / super_ selects the enclosing method by its kind'), ('fd417cd', 'C14', 'M6 / built-in StopIter is exported to every module'),
+    ('f5767c9', 'C17', 'L3 / Scanner::read_escaped_bytes / loop over advance() looks for newlines'),
 ]
 root = tempfile.mkdtemp(prefix='yarel_snapshot_')
 first = subprocess.run(['git', '-C', '/repo', 'rev-list', '--max-parents=0', 'HEAD'], capture_output=True, text=True).stdout.split()[0]
